@@ -138,6 +138,18 @@ Fixpoint s7 (n : node) : bool :=
      end) && forallb s7 ch
   end.
 
+(* tree shape clause S4: heading levels are 1..6 (ATX scanner #{1,6}, setext 1 or 2).  The
+   renderer writes the tag h<level> for whatever level the tree carries, so without S4 the tag
+   need not be in the vocabulary (it is still made of inert bytes). *)
+Fixpoint s4 (n : node) : bool :=
+  match n with
+  | Node v _ ch =>
+    (match v with
+     | Heading level _ => (1 <=? level)%N && (level <=? 6)%N
+     | _ => true
+     end) && forallb s4 ch
+  end.
+
 (* ------------------------------------------------------------------ Part B: bytes *)
 Inductive tok :=
 | TOpen (name : bytes) (attrs : list (bytes * option bytes))   (* value still in escaped form *)
